@@ -4,23 +4,26 @@ D(k, b, t, r) == [kind |-> k, backoff |-> b, timeout |-> t, sync |-> FALSE, reac
 DL(k, b, t, r, l) == [kind |-> k, backoff |-> b, timeout |-> t, sync |-> FALSE, react |-> r, lat |-> l]
 None == D("none", 0, 0, "any")
 \* one daemon of every reaction with every combination of backoff / timeout, alone or beside a timer
-ConfsPos == {[dh |-> [h \in Hs |-> IF h = "d1" THEN D("daemon", b, t, r) ELSE IF h = "t1" THEN x ELSE None], polling |-> 2, filter |-> TRUE, prompt |-> FALSE, exitto |-> 2] :
+ConfsPos == {[dh |-> [h \in Hs |-> IF h = "d1" THEN D("daemon", b, t, r) ELSE IF h = "t1" THEN x ELSE None], polling |-> 2, filter |-> TRUE, prompt |-> FALSE, exitto |-> 2, peering |-> FALSE] :
                b \in {0, 2}, t \in {0, 3}, r \in {"obey", "cancel", "ignore", "selfexit"}, x \in {None, D("timer", 0, 0, "any")}}
-ConfsQ == {[dh |-> [h \in Hs |-> IF h = "d1" THEN D("daemon", 2, t, r) ELSE IF h = "t1" THEN D("timer", 0, 0, "any") ELSE None], polling |-> 2, filter |-> TRUE, prompt |-> FALSE, exitto |-> 2] :
+ConfsQ == {[dh |-> [h \in Hs |-> IF h = "d1" THEN D("daemon", 2, t, r) ELSE IF h = "t1" THEN D("timer", 0, 0, "any") ELSE None], polling |-> 2, filter |-> TRUE, prompt |-> FALSE, exitto |-> 2, peering |-> FALSE] :
                t \in {0, 3}, r \in {"obey", "cancel", "ignore", "selfexit"}}
 \* the operator exits at any moment of a daemon's life
-ConfsExit == {[dh |-> [h \in Hs |-> IF h = "d1" THEN D("daemon", 2, t, r) ELSE None], polling |-> 2, filter |-> TRUE, prompt |-> FALSE, exitto |-> 2] :
+ConfsExit == {[dh |-> [h \in Hs |-> IF h = "d1" THEN D("daemon", 2, t, r) ELSE None], polling |-> 2, filter |-> TRUE, prompt |-> FALSE, exitto |-> 2, peering |-> FALSE] :
                t \in {0, 3}, r \in {"obey", "cancel", "ignore"}}
+\* the operator is paused and resumed by the peering engine at any moment
+ConfsPause == {[dh |-> [h \in Hs |-> IF h = "d1" THEN D("daemon", b, t, r) ELSE IF h = "t1" THEN x ELSE None], polling |-> 2, filter |-> TRUE, prompt |-> FALSE,
+                exitto |-> 2, peering |-> TRUE] : b \in {1}, t \in {0, 2}, r \in {"obey", "cancel", "ignore"}, x \in {None}}
 \* two daemons with different reactions
-ConfsTwo == {[dh |-> [h \in Hs |-> IF h = "d1" THEN D("daemon", 2, 3, r1) ELSE IF h = "d2" THEN D("daemon", 0, t2, r2) ELSE None], polling |-> 2, filter |-> TRUE, prompt |-> FALSE, exitto |-> 2] :
+ConfsTwo == {[dh |-> [h \in Hs |-> IF h = "d1" THEN D("daemon", 2, 3, r1) ELSE IF h = "d2" THEN D("daemon", 0, t2, r2) ELSE None], polling |-> 2, filter |-> TRUE, prompt |-> FALSE, exitto |-> 2, peering |-> FALSE] :
                r1 \in {"obey", "cancel", "ignore"}, r2 \in {"obey", "cancel", "selfexit"}, t2 \in {0, 2}}
 \* a daemon that ignores everything and has no cancellation timeout: the deletion never completes (negative configuration)
-ConfsStuck == {[dh |-> [h \in Hs |-> IF h = "d1" THEN D("daemon", 2, 0, "ignore") ELSE None], polling |-> 2, filter |-> TRUE, prompt |-> FALSE, exitto |-> 2]}
+ConfsStuck == {[dh |-> [h \in Hs |-> IF h = "d1" THEN D("daemon", 2, 0, "ignore") ELSE None], polling |-> 2, filter |-> TRUE, prompt |-> FALSE, exitto |-> 2, peering |-> FALSE]}
 \* functions with stated latencies on a prompt stream: the deletion completes within the bound
-ConfsTimed == {[dh |-> [h \in Hs |-> IF h = "d1" THEN DL("daemon", b, t, r, l) ELSE IF h = "t1" THEN x ELSE None], polling |-> 2, filter |-> TRUE, prompt |-> TRUE, exitto |-> 2] :
+ConfsTimed == {[dh |-> [h \in Hs |-> IF h = "d1" THEN DL("daemon", b, t, r, l) ELSE IF h = "t1" THEN x ELSE None], polling |-> 2, filter |-> TRUE, prompt |-> TRUE, exitto |-> 2, peering |-> FALSE] :
                b \in {0, 2}, t \in {0, 3}, r \in {"obey", "cancel", "ignore", "selfexit"}, l \in {0, 1, 4}, x \in {None, D("timer", 0, 0, "any")}}
 \* ... and never does with a daemon that ignores everything and has no cancellation timeout (negative configuration)
-ConfsTimedStuck == {[dh |-> [h \in Hs |-> IF h = "d1" THEN DL("daemon", 2, 0, "ignore", 0) ELSE None], polling |-> 2, filter |-> TRUE, prompt |-> TRUE, exitto |-> 2]}
+ConfsTimedStuck == {[dh |-> [h \in Hs |-> IF h = "d1" THEN DL("daemon", 2, 0, "ignore", 0) ELSE None], polling |-> 2, filter |-> TRUE, prompt |-> TRUE, exitto |-> 2, peering |-> FALSE]}
 StuckInTime == (obj.exists /\ obj.deleting /\ obj.fin /\ up /\ ~stopping) => now <= gh.delat + Bound
 \* the bound is tight up to one polling period: with one period less it is exceeded
 TightBound == Bound - conf.polling
